@@ -140,7 +140,11 @@ def fixpoint_flags(fn):
             continue
         resets = [b for (b, _k, c, v) in info if c and v == 0]
         in_loop = any(r in fn.reach_from_succ(S) and S in fn.reach_from_succ(r) for S in tests for r in resets)
-        if in_loop:
+        # a flag is lowered first and raised later: its reset comes before (dominates) another of its assignments.  A named
+        # condition `let c = a && b` is also a bool that is "set to false" in a loop - on the branch where `a` is false -
+        # but there each assignment sits on its own branch and none precedes another.
+        lowered_first = any(b2 != r and fn.dominates(r, b2) for r in resets for (b2, _k, _c, _v) in info) or any(sum(1 for (b2, _k, _c, _v) in info if b2 == r) > 1 for r in resets)
+        if in_loop and lowered_first:
             out.append((l, info))
     return out
 
